@@ -411,6 +411,8 @@ class Sim:
                 ty = op.get("ty", "").replace("&'static ", "&").replace("&mut ", "&")
                 if ty.startswith("&[u8") or ty in ("&str", "str") or ty.startswith("[u8"):
                     return Bytes(op["bytes"])
+                if op.get("indirect") and ty in ("&&str", "&&[u8]"):
+                    return Bytes(op["bytes"])     # derefs of a Bytes value are identities
                 # promoted constant of a local fieldless enum: decode the discriminant
                 inner = ty[1:] if ty.startswith("&") else ty
                 a = self.adts.get(inner)
